@@ -44,10 +44,42 @@ def source_ok(src, gates):
     return not LT_GT_PAREN.search(src)
 
 
-def run_suite(exe, sexps, timeout=10, gates=()):
-    """returns (results, mismatches, discarded) ; a mismatch is a RefResult with impl_* filled"""
+def join_chains(source):
+    """metamorphic rewriting of a rendered program: two consecutive statements `X = E;` / `Y = X;` (X, Y plain identifiers,
+    same indentation) become the chained assignment `Y = X = E;` — same meaning under right-associative assignment.
+    Returns the new source, or None when the program has no such pair."""
+    import re
+    lines = source.split("\n")
+    out, i, joined = [], 0, 0
+    pat1 = re.compile(r"^(\s*)([A-Za-z_]\w*) = (.+);$")
+    while i < len(lines):
+        m1 = pat1.match(lines[i])
+        if m1 and i + 1 < len(lines):
+            m2 = re.match(r"^%s([A-Za-z_]\w*) = %s;$" % (re.escape(m1.group(1)), re.escape(m1.group(2))), lines[i + 1])
+            if m2 and m2.group(1) != m1.group(2) and "=" not in m1.group(3).replace("==", "").replace("!=", "").replace("<=", "").replace(">=", ""):
+                out.append("%s%s = %s = %s;" % (m1.group(1), m2.group(1), m1.group(2), m1.group(3)))
+                i += 2
+                joined += 1
+                continue
+        out.append(lines[i])
+        i += 1
+    return "\n".join(out) if joined else None
+
+
+def run_suite(exe, sexps, timeout=10, gates=(), source_transform=None):
+    """returns (results, mismatches, discarded) ; a mismatch is a RefResult with impl_* filled.
+    source_transform: optional fn(source) -> source or None, a meaning-preserving rewriting of the rendered program; programs
+    for which it returns None are discarded"""
     res = model_run(sexps)
     live = [r for r in res if expected_class(r.status) is not None and source_ok(r.source, gates)]
+    if source_transform:
+        kept = []
+        for r in live:
+            t = source_transform(r.source)
+            if t is not None:
+                r.source = t
+                kept.append(r)
+        live = kept
     outs = common.run_programs(exe, [r.source for r in live], timeout=timeout)
     bad = []
     for r, o in zip(live, outs):
